@@ -45,34 +45,56 @@ func logical(db *db19.Database, only string) string {
 		if only != "" && ts.Table != only {
 			continue
 		}
-		out = append(out, "SCHEMA "+ts.Schema.DumpString(0))
+		// dump writes the smallest key first, so load may reorder the indexes of a table:
+		// the schema is compared with its indexes in canonical order
+		var ixs []string
+		for i := range ts.Indexes {
+			ixs = append(ixs, ts.Indexes[i].String())
+		}
+		sort.Strings(ixs)
+		var live []string
+		for _, c := range ts.Columns {
+			if c != "-" {
+				live = append(live, c)
+			}
+		}
+		out = append(out, "SCHEMA "+ts.Table+" ("+strings.Join(append(live, ts.Derived...), ",")+") "+strings.Join(ixs, " "))
 		it := index.NewOverIter(ts.Table, 0)
 		var rows []string
 		for it.Next(rt); !it.Eof(); it.Next(rt) {
-			rec := rt.GetRecord(it.CurOff())
-			var flds []string
-			for i, col := range ts.Columns {
-				if col == "-" {
-					continue
-				}
-				raw := rec.GetRaw(i)
-				if len(raw) > 40 {
-					raw = fmt.Sprintf("%s..%d.%x", raw[:20], len(raw), raw[len(raw)-8:])
-				}
-				flds = append(flds, fmt.Sprintf("%s=%x", col, raw))
-			}
-			rows = append(rows, strings.Join(flds, ","))
+			rows = append(rows, rowString(ts.Columns, rt.GetRecord(it.CurOff())))
 		}
 		out = append(out, fmt.Sprintf("ROWS %s n=%d nrows=%d", ts.Table, len(rows), rt.GetInfo(ts.Table).Nrows))
-		out = append(out, rows...)
+		sortedRows := append([]string{}, rows...)
+		sort.Strings(sortedRows)
+		out = append(out, sortedRows...)
 		for i := range ts.Indexes {
+			// every index must enumerate exactly the rows of the table, in the order of ITS key,
+			// and a key index must find each row by its key
+			ix := &ts.Indexes[i]
 			it := index.NewOverIter(ts.Table, i)
-			n := 0
+			var got []string
+			prev, first := "", true
 			for it.Next(rt); !it.Eof(); it.Next(rt) {
-				n++
+				off := it.CurOff()
+				rec := rt.GetRecord(off)
+				got = append(got, rowString(ts.Columns, rec))
+				key := ix.Ixspec.Key(rec)
+				if !first && !(prev < key) {
+					out = append(out, fmt.Sprintf("INDEX ORDER MISMATCH %s %s: entries not in the order of the index's own key", ts.Table, ix.String()))
+					break
+				}
+				prev, first = key, false
+				if ix.Mode == 'k' {
+					if dr := rt.Lookup(ts.Table, i, key); dr == nil || dr.Off != off {
+						out = append(out, fmt.Sprintf("INDEX LOOKUP MISMATCH %s %s: a row is not found by its key", ts.Table, ix.String()))
+						break
+					}
+				}
 			}
-			if n != len(rows) {
-				out = append(out, fmt.Sprintf("INDEX COUNT MISMATCH %s ix%d %d", ts.Table, i, n))
+			sort.Strings(got)
+			if strings.Join(got, "\n") != strings.Join(sortedRows, "\n") {
+				out = append(out, fmt.Sprintf("INDEX CONTENT MISMATCH %s %s: %d entries, table has %d rows", ts.Table, ix.String(), len(got), len(rows)))
 			}
 		}
 	}
@@ -88,11 +110,28 @@ func logical(db *db19.Database, only string) string {
 	return strings.Join(out, "\n")
 }
 
+func rowString(cols []string, rec core.Record) string {
+	var flds []string
+	for i, col := range cols {
+		if col == "-" {
+			continue
+		}
+		raw := rec.GetRaw(i)
+		if len(raw) > 40 {
+			raw = fmt.Sprintf("%s..%d.%x", raw[:20], len(raw), raw[len(raw)-8:])
+		}
+		flds = append(flds, fmt.Sprintf("%s=%x", col, raw))
+	}
+	return strings.Join(flds, ",")
+}
+
 type physTable struct {
 	name string
 	cols []string   // physical, "-" = deleted
 	rows [][]string // fields 0..Count-1 of each record, in key order
 	fkey bool
+	firstIdx int // the index dump and compact iterate (SmallestKeyIndex)
+	idxs []string // index texts in schema order
 }
 
 func physical(db *db19.Database) []physTable {
@@ -100,10 +139,15 @@ func physical(db *db19.Database) []physTable {
 	rt := db.NewReadTran()
 	for _, ts := range rt.GetAllSchema() {
 		pt := physTable{name: ts.Table, cols: append([]string{}, ts.Columns...), fkey: ts.HasFkey()}
-		it := index.NewOverIter(ts.Table, 0)
+		ixi := rt.GetInfo(ts.Table).SmallestKeyIndex(ts.Indexes)
+		it := index.NewOverIter(ts.Table, ixi)
 		for it.Next(rt); !it.Eof(); it.Next(rt) {
 			rec := rt.GetRecord(it.CurOff())
 			pt.rows = append(pt.rows, fields(rec))
+		}
+		pt.firstIdx = ixi
+		for i := range ts.Indexes {
+			pt.idxs = append(pt.idxs, ts.Indexes[i].String())
 		}
 		res = append(res, pt)
 	}
@@ -204,6 +248,8 @@ func cycle(t *lib.Trace, r *rand.Rand, cyc int) {
 	admin("create t1 (a, b, c, d, e) key(a) index(b) index unique(d) index(c) in tgt cascade")
 	admin("create t2 (k, big, z) key(k)")
 	admin("create t3 (k, v) key(k)") // stays empty
+	// several keys; the smallest key (fewest columns) is NOT the first index
+	admin("create t4 (r, n, code, v) key(r,n) index(v) key(code) index unique(v,code)")
 	if r.Intn(2) == 0 {
 		admin("view v1 = t1 where a > 1")
 	}
@@ -212,7 +258,7 @@ func cycle(t *lib.Trace, r *rand.Rand, cyc int) {
 	}
 	nsteps := 25 + r.Intn(30)
 	for step := 0; step < nsteps; step++ {
-		switch r.Intn(14) {
+		switch r.Intn(16) {
 		case 0:
 			admin("alter t1 drop index(b)")
 		case 1:
@@ -261,9 +307,17 @@ func cycle(t *lib.Trace, r *rand.Rand, cyc int) {
 			action(fmt.Sprintf("insert { k: %d, big: '%s'%s } into t2", r.Intn(60), big, z))
 			t.Count(fmt.Sprintf("recsize=%d", size))
 		case 9:
+			if r.Intn(2) == 0 {
+				action(fmt.Sprintf("delete t4 where code = %d", r.Intn(40)))
+				continue
+			}
 			action(fmt.Sprintf("delete t1 where a = %d", r.Intn(20)))
 		case 10:
 			action(fmt.Sprintf("update t1 where a = %d set d = ''", r.Intn(20))) // trailing fields become empty
+		case 11, 12:
+			// code runs against (r,n) so the two key orders differ
+			action(fmt.Sprintf("insert { r: 'r%d', n: %d, code: %d, v: 'v%d' } into t4", r.Intn(4), r.Intn(12), 40-r.Intn(40), r.Intn(6)))
+			t.Count("insert-multikey")
 		default:
 			var flds []string
 			flds = append(flds, fmt.Sprintf("a: %d", r.Intn(20)))
@@ -322,6 +376,40 @@ func cycle(t *lib.Trace, r *rand.Rand, cyc int) {
 			continue
 		}
 		dumped[pt.name] = recs
+		// the order in which dump printed the indexes (the smallest key first)
+		if len(pt.idxs) > 0 {
+			type pos struct{ i, at int }
+			var ps []pos
+			okpos := true
+			for i, ixs := range pt.idxs {
+				at := strings.Index(schema, ixs)
+				for at > 0 && schema[at-1] != ' ' { // not inside another index
+					nx := strings.Index(schema[at+1:], ixs)
+					if nx < 0 {
+						at = -1
+						break
+					}
+					at += 1 + nx
+				}
+				if at < 0 {
+					okpos = false
+				}
+				ps = append(ps, pos{i, at})
+			}
+			if okpos {
+				sort.Slice(ps, func(a, b int) bool { return ps[a].at < ps[b].at })
+				var order []string
+				for _, q := range ps {
+					order = append(order, fmt.Sprint(q.i))
+				}
+				t.Qf(strings.Join(order, ","), "indexorder %d %d", len(pt.idxs), pt.firstIdx)
+				if pt.firstIdx != 0 {
+					t.Count("dump-first-index-not-0")
+				}
+			} else {
+				t.Fail("dump-schema-index-missing", fmt.Sprintf("%s table %s: schema line %q does not contain every index", desc, pt.name, schema))
+			}
+		}
 		// Q: every row as dump writes it (sample), and the file bytes
 		for j, row := range pt.rows {
 			if j >= 12 && j < len(pt.rows)-2 {
@@ -342,7 +430,68 @@ func cycle(t *lib.Trace, r *rand.Rand, cyc int) {
 		}
 		t.Count("dumptable")
 	}
+
+	// ---- load a dumped table back into the OPEN database after more data-only persists
+	// (LoadDbTable / Database.Load), then close and reopen: the loaded table must still be there
+	{
+		nper := r.Intn(9)
+		for i := 0; i < nper; i++ {
+			action(fmt.Sprintf("insert { k: %d, big: 'later' } into t2", 1000+r.Intn(1000)))
+			action(fmt.Sprintf("insert { c: %d, x: 'y' } into tgt", 100+r.Intn(100)))
+			db.Persist()
+		}
+		cand := []string{}
+		for _, pt := range phys {
+			if _, ok := dumped[pt.name]; ok && !pt.fkey && pt.name != "tgt" {
+				cand = append(cand, pt.name)
+			}
+		}
+		if len(cand) > 0 {
+			name := cand[r.Intn(len(cand))]
+			// make the table differ from its dump, so that the load is visible
+			switch name {
+			case "t2":
+				action(fmt.Sprintf("insert { k: %d, big: 'afterdump' } into t2", 5000+r.Intn(1000)))
+			case "t3":
+				action(fmt.Sprintf("insert { k: %d, v: 'afterdump' } into t3", r.Intn(1000)))
+			case "t4":
+				action(fmt.Sprintf("insert { r: 'rz', n: %d, code: %d, v: 'afterdump' } into t4", r.Intn(1000), 500+r.Intn(1000)))
+			}
+			var n int
+			var lerr error
+			e := try(func() { n, lerr = tools.LoadDbTable(name, name+".su", "", "", db) })
+			if e != "" || lerr != nil {
+				t.Fail("loaddbtable-error", fmt.Sprint(desc, " table ", name, " : ", e, lerr))
+			} else {
+				if got := logical(db, name); got != perTable[name] || n != len(dumped[name]) {
+					t.Fail("loaddbtable-diff", desc+" table "+name+" : "+firstDiff(perTable[name], got))
+				}
+				for i := r.Intn(3); i > 0; i-- {
+					action(fmt.Sprintf("insert { c: %d, x: 'z' } into tgt", 300+r.Intn(100)))
+					db.Persist()
+				}
+				hist = append(hist, fmt.Sprintf("%d data-only persists; load %s into the open database", nper, name))
+				t.Count(fmt.Sprintf("loaddbtable after persists=%d", min(nper, 4)))
+			}
+		}
+		desc = fmt.Sprintf("cycle %d: %s", cyc, strings.Join(hist, "; "))
+		if len(desc) > 1800 {
+			desc = desc[:900] + " … " + desc[len(desc)-900:]
+		}
+	}
+	beforeClose := logical(db, "")
+	phys = physical(db)
 	db.Close()
+	if dbr, err := db19.OpenDatabase("x.db"); err != nil {
+		t.Fail("reopen-error", fmt.Sprint(desc, " : ", err))
+		return
+	} else {
+		reopened := logical(dbr, "")
+		dbr.Close()
+		if reopened != beforeClose {
+			t.Fail("close-reopen-diff", desc+" : after close and reopen "+firstDiff(beforeClose, reopened))
+		}
+	}
 
 	// ---- load the whole dump
 	var lerr error
@@ -399,7 +548,7 @@ func cycle(t *lib.Trace, r *rand.Rand, cyc int) {
 			stored = append(stored, string(rt.GetRecord(it.CurOff())))
 		}
 		dbz.Close()
-		if got != perTable[pt.name] || n != len(pt.rows) {
+		if got != perTable[pt.name] || n != len(recs) {
 			t.Fail("table-load-diff", desc+" table "+pt.name+" : "+firstDiff(perTable[pt.name], got))
 		}
 		body := frames(recs)
@@ -430,8 +579,8 @@ func cycle(t *lib.Trace, r *rand.Rand, cyc int) {
 	compacted := logical(db3, "")
 	phys3 := physical(db3)
 	db3.Close()
-	if compacted != orig {
-		t.Fail("compact-diff", desc+" : "+firstDiff(orig, compacted))
+	if compacted != beforeClose {
+		t.Fail("compact-diff", desc+" : "+firstDiff(beforeClose, compacted))
 	}
 	for i, pt := range phys {
 		if i >= len(phys3) || phys3[i].name != pt.name || len(phys3[i].rows) != len(pt.rows) {
@@ -452,6 +601,31 @@ func cycle(t *lib.Trace, r *rand.Rand, cyc int) {
 		}
 	}
 	t.Count("compact")
+
+	// thorough tier only (2 s per cycle): the file-level entry points on the compacted file
+	if lib.Tier() == "thorough" {
+		rmAll("d2.su", "y2.db")
+		var e2 error
+		if e := try(func() { _, _, e2 = tools.DumpDatabase("x.db", "d2.su") }); e != "" || e2 != nil {
+			t.Fail("dumpdatabase-error", fmt.Sprint(desc, " : ", e, e2))
+			return
+		}
+		if e := try(func() { _, _, e2 = tools.LoadDatabase("d2.su", "y2.db", "", "") }); e != "" || e2 != nil {
+			t.Fail("load-error", fmt.Sprint(desc, " (dump of the compacted file) : ", e, e2))
+			return
+		}
+		if db4, err := db19.OpenDatabase("y2.db"); err == nil {
+			got := logical(db4, "")
+			db4.Close()
+			if got != beforeClose {
+				t.Fail("dump-load-diff", desc+" (DumpDatabase of the compacted file) : "+firstDiff(beforeClose, got))
+			}
+		} else {
+			t.Fail("open-loaded", fmt.Sprint(desc, " : ", err))
+		}
+		rmAll("d2.su", "y2.db")
+		t.Count("dumpdatabase+load")
+	}
 }
 
 func frames(recs []string) string {
@@ -576,6 +750,103 @@ func crafted(t *lib.Trace, r *rand.Rand, i int) {
 	t.Count(fmt.Sprintf("crafted=%s", strings.SplitN(out, " ", 2)[0]))
 }
 
+// craftedDb builds a whole-database dump file by hand (as another program, an older version or a
+// damaged file would provide it): several tables, possibly a key violation in one of them, in
+// particular in the LAST and LARGE one whose index build is still running when the reader
+// reaches the end of the file. LoadDatabase must refuse it; if it reports success every table
+// of the dump must exist with all its rows.
+func craftedDb(t *lib.Trace, r *rand.Rand, i int) {
+	ntables := 2 + r.Intn(3)
+	dupTable := -1
+	if r.Intn(4) != 0 {
+		dupTable = ntables - 1 // mostly the last one
+		if r.Intn(4) == 0 {
+			dupTable = r.Intn(ntables)
+		}
+	}
+	var sb strings.Builder
+	sb.WriteString(version)
+	sb.WriteString(prefix + "views (view_name,view_definition) key(view_name)\n")
+	sb.Write([]byte{0, 0, 0, 0})
+	sizes := make([]int, ntables)
+	var what []string
+	for ti := 0; ti < ntables; ti++ {
+		n := []int{0, 3, 50, 2000}[r.Intn(4)]
+		if ti == ntables-1 && r.Intn(2) == 0 {
+			n = 20000 + r.Intn(20000)
+		}
+		if ti == dupTable && n < 2 {
+			n = 2
+		}
+		sizes[ti] = n
+		fmt.Fprintf(&sb, "%scr%d (k,a) key(k) index(a)\n", prefix, ti)
+		var recs []string
+		for j := 0; j < n; j++ {
+			var rb core.RecordBuilder
+			rb.Add(core.SuStr(fmt.Sprintf("k%07d", j)))
+			rb.Add(core.SuStr(fmt.Sprint("a", j%7)))
+			recs = append(recs, string(rb.Build()))
+		}
+		if ti == dupTable {
+			// the duplicate key sits at the very end (or somewhere, for small tables)
+			at := n - 1
+			if n < 100 {
+				at = 1 + r.Intn(n-1)
+			}
+			recs[at] = recs[at-1]
+		}
+		sb.WriteString(frames(recs))
+		what = append(what, fmt.Sprintf("cr%d:%d rows", ti, n))
+	}
+	rmAll("cd.su", "cd.db")
+	os.WriteFile("cd.su", []byte(sb.String()), 0644)
+	var nt int
+	var err error
+	e := try(func() { nt, _, err = tools.LoadDatabase("cd.su", "cd.db", "", "") })
+	desc := fmt.Sprintf("crafted database dump %d: tables %s, duplicate key in table %d (-1 = none)", i, strings.Join(what, ", "), dupTable)
+	failed := e != "" || err != nil
+	t.Count(fmt.Sprintf("crafteddb dup=%v last-big=%v", dupTable >= 0, sizes[ntables-1] >= 20000))
+	if dupTable < 0 && failed {
+		t.Fail("loaddb-refused-valid", fmt.Sprint(desc, " : ", e, err))
+		return
+	}
+	if failed {
+		if !strings.Contains(fmt.Sprint(e, err), "duplicate") {
+			t.Fail("loaddb-unclear-error", fmt.Sprint(desc, " : ", e, err))
+		}
+		return
+	}
+	// LoadDatabase reported success: the database must contain every table of the dump, complete
+	problem := ""
+	if dupTable >= 0 {
+		problem = "LoadDatabase reported success although the dump violates a key"
+	}
+	if nt != ntables && problem == "" {
+		problem = fmt.Sprintf("LoadDatabase returned %d tables", nt)
+	}
+	if db, oerr := db19.OpenDatabase("cd.db"); oerr != nil {
+		problem += fmt.Sprint("; the loaded database does not open: ", oerr)
+	} else {
+		rt := db.NewReadTran()
+		for ti := 0; ti < ntables; ti++ {
+			info := rt.GetInfo(fmt.Sprintf("cr%d", ti))
+			if info == nil {
+				problem += fmt.Sprintf("; table cr%d is missing from the loaded database", ti)
+			} else if info.Nrows != sizes[ti] {
+				problem += fmt.Sprintf("; table cr%d has %d rows", ti, info.Nrows)
+			}
+		}
+		db.Close()
+	}
+	if problem != "" {
+		sig := "loaddb-incomplete"
+		if dupTable >= 0 {
+			sig = "loaddb-accepted-duplicate"
+		}
+		t.Fail(sig, desc+" : "+problem)
+	}
+}
+
 func main() {
 	db19.MakeSuTran = func(ut *db19.UpdateTran) *core.SuTran { return core.NewSuTran(nil, true) }
 	qry.MakeSuTran = func(qt qry.QueryTran) *core.SuTran { return nil }
@@ -592,5 +863,8 @@ func main() {
 	for i := 0; i < n*8; i++ {
 		crafted(t, r, i)
 	}
-	rmAll("x.db", "y.db", "z.db", "d.su", "ct.su", "cl.db", "tgt.su", "t1.su", "t2.su", "t3.su")
+	for i := 0; i < n; i++ {
+		craftedDb(t, r, i)
+	}
+	rmAll("x.db", "y.db", "z.db", "d.su", "ct.su", "cl.db", "tgt.su", "t1.su", "t2.su", "t3.su", "t4.su", "cd.su", "cd.db")
 }
